@@ -152,7 +152,35 @@ fn sequences(alpha: &[Ev], len: usize) -> impl Iterator<Item = Case> + '_ {
     })
 }
 
+/// the same accounting end to end: cluster histories (C04's generator) that contain a forced election while operations
+/// are in flight; when everything is quiet no node may report a pending operation (membership never changes)
+pub fn run_e2e(ctx: &Ctx, case: &crate::props::c04::Case) -> Outcome {
+    let mut out = crate::props::c04::run_case(ctx, case);
+    out.fail = match out.fail.take() {
+        Some((sig, d)) if sig == "C04|pending-operations-left" => Some(("C15|end-to-end|pending-operations-left-at-quiescence".to_string(), d)),
+        // whatever else such a history shows belongs to other properties
+        _ => None,
+    };
+    out.known_image_hits.clear();
+    out.classes = vec!["end-to-end-with-a-forced-election"];
+    out
+}
+
+fn e2e_strategy() -> impl Strategy<Value = crate::props::c04::Case> {
+    (crate::props::c04::case_strategy(), 0..3usize, 0..8usize).prop_map(|(mut c, at, pos)| {
+        let pos = pos.min(c.steps.len());
+        c.steps.insert(pos, crate::props::c04::Step { at, cmd: crate::props::c04::Cmd::ForceElection, settle: false });
+        c
+    })
+}
+
 pub fn run(ctx: &Ctx, rep: &mut Report) {
+    crate::interpose::virtual_clock(true);
+    let ne = ctx.amount(1200, 30_000);
+    crate::report::explore_with(ctx, rep, "end-to-end-with-elections", ne, 100, e2e_strategy(), |c| run_e2e(ctx, c));
+    if !rep.failures.is_empty() {
+        return;
+    }
     crate::interpose::virtual_clock(true);
     let n = ctx.amount(60_000, 2_000_000);
     explore(ctx, rep, "events", n, prop::collection::vec(ev_strategy(), 1..30).prop_map(|evs| Case { evs }), |c| run_case(ctx, c));
@@ -167,6 +195,9 @@ pub fn run(ctx: &Ctx, rep: &mut Report) {
 }
 
 pub fn replay(ctx: &Ctx, _engine: &str, case: &J) -> Result<Option<(String, String)>, String> {
+    if _engine == "end-to-end-with-elections" {
+        return replay_guarded::<crate::props::c04::Case>(ctx, case, |c| run_e2e(ctx, c));
+    }
     crate::interpose::virtual_clock(true);
     replay_guarded::<Case>(ctx, case, |c| run_case(ctx, c))
 }
